@@ -3,7 +3,9 @@ ORACLES = {
     # a registered RPC method after binding (the functools.partial built by Method.bind)
     'UserMethod': {'returns': 'encodable', 'raises': ('Exception',), 'raised_invariant': 'spec.user:raised_ok'},
     # middlewares, error handlers, tracers: "do not raise" is the user contract stated in C01 / C12 / C19
-    'UserMiddleware': {'returns': 'any', 'raises': ()},
+    # A-user (C01): a middleware returns what the chain returns: nothing (UNSET) or a response object
+    'UserMiddleware': {'returns': '=pjrpc.common.v20:Response|=pjrpc.common.common:UnsetType', 'raises': (),
+                       'returned_invariant': 'spec.user:handler_result_ok'},
     'UserErrorHandler': {'returns': 'pjrpc.common.exceptions:JsonRpcError', 'raises': (),
                          'returned_invariant': 'spec.user:error_ok'},
     # the (undecorated) send below the tracing / retrying wrappers: returns a response / None or raises anything,
